@@ -59,7 +59,7 @@ def showErr : Err → String
 def inAenter (d : D) : Nat := d.s.sleepers.length
 
 /-- lines: `cfg count W` (new limiter, clock 0), `arrive i d e` (task i calls `__aenter__` now; its body lasts d ticks and
-ends by an exception iff e = 1), `cancel i`, `advance dt [tie-break order of task ids]` -/
+ends by an exception iff e = 1), `cancel i`, `advance dt [tie-break order of task ids]`, `stall dt [tie-break order]` -/
 def handle (st : Option D) (line : String) : Option D × String :=
   match words line, st with
   | ["cfg", n, w], _ =>
@@ -94,6 +94,20 @@ def handle (st : Option D) (line : String) : Option D × String :=
         let adm := d'.s.log.drop d.s.log.length
         (some d', s!"t={d'.s.now} adm={joinWith "," (adm.map toString)} sleeping={inAenter d'} body={d'.s.inBody.length}")
       | .error e => (st, showErr e)
+    | _, _ => (st, "bad-op")
+  | "stall" :: dt :: hint, some d =>
+    -- the loop is busy for dt ticks: real time passes (`tick dt`) and nobody runs; sleeps and bodies that ended meanwhile are
+    -- served LATE, at the new time (`attempt` only requires now ≥ the requested wake-up time)
+    match dt.toNat?, nats? hint with
+    | some dt, some hint =>
+      match dstep d (.tick dt) with
+      | .error e => (st, showErr e)
+      | .ok d1 =>
+        match advance d1 d1.s.now hint with
+        | .ok d' =>
+          let adm := d'.s.log.drop d.s.log.length
+          (some d', s!"t={d'.s.now} adm={joinWith "," (adm.map toString)} sleeping={inAenter d'} body={d'.s.inBody.length}")
+        | .error e => (st, showErr e)
     | _, _ => (st, "bad-op")
   | _, _ => (st, "bad-op")
 
